@@ -134,16 +134,18 @@ def get_division_candidate(
 
     """
     # Look for exponent candidates among divisors
-    for idx2 in reversed(numpy.lexsort(x2.exponents.T)):
+    order2 = numpy.lexsort(x2.exponents.T)
+    for position, idx2 in reversed(list(enumerate(order2))):
         exponent2 = x2.exponents[idx2]
 
-        # Include coefficients where idx2 is non-zero and any potential
-        # candidates that is a better fit has coefficient zero. Exponent needs
-        # to be the biggest one around.
+        # Include coefficients where idx2 is the leading term: it is non-zero
+        # and every term that sorts after it has coefficient zero. Each divisor
+        # element must be reduced by one and the same term throughout; using
+        # several mutually incomparable "biggest" terms makes the subtraction
+        # go around in circles.
         include2 = numpy.ones(x2.shape, dtype=bool)
-        for idx, exponent in enumerate(x2.exponents):
-            if numpy.all(exponent2 <= exponent):
-                include2 &= (x2.coefficients[idx] == 0) ^ (idx == idx2)
+        for idx in order2[position:]:
+            include2 &= (x2.coefficients[idx] == 0) ^ (idx == idx2)
         if not numpy.any(include2):
             continue
 
